@@ -25,7 +25,7 @@ def expected_state(dev, r, kind):
         return {
             "state": ("enum2", i_eq(r["state"], 1), dev.DeviceState.ON, dev.DeviceState.OFF),
             "time_left": iso_units(r["left_s"]), "time_on": iso_units(r["on_s"]), "auto_shutdown": iso_units(r["auto_s"]),
-            "power_consumption": r["watts"], "electric_current": Opaque("Amps", [r["watts"]], pytype="float"),
+            "power_consumption": r["watts"], "electric_current": ("amps", r["watts"]),
         }
     if kind == "shutter":
         return {"position": r["position"],
@@ -150,7 +150,39 @@ def _reply_of(path, spec, tag):
     return SymSeq("bytes", head.items + [tail])
 
 
+def run_c09_breeze(case, eng, res):
+    """empty login reply on the thermostat control exchange: RuntimeError, no further frame (all request shapes / remote kinds)"""
+    def body(path):
+        c = dict(case, op="control_breeze_device", fault="login")
+        return A.run_op(path, c)
+
+    n = 0
+    for path, run, exc in eng.explore(body):
+        if exc is not None:
+            raise exc
+        n += 1
+        path.twin("C09")
+        res["checks"]["empty_login_reply_raises_RuntimeError"] = res["checks"].get("empty_login_reply_raises_RuntimeError", 0) + 1
+        eng.stats.checks += 1
+        bad = not (run.outcome == "exc" and isinstance(run.result, RuntimeError)) or len(run.frames) != 1
+        mw = path.witness()
+        if bad:
+            res["violations"].append({"what": "C09 empty login reply (control_breeze_device): %s, %d frames" % (
+                type(run.result).__name__, len(run.frames)), "case": case, "replay": A.replay_spec(run, mw, "C09")})
+        else:
+            eng.stats.checks_discharged += 1
+        res["witnesses"].append({"replay": A.replay_spec(run, mw, None),
+                                 "expected": {"exception": type(run.result).__name__ if run.outcome == "exc" else None,
+                                              "nframes": len(run.frames), "successful": None}})
+        if len(res["samples"]) < 1:
+            res["samples"].append({"case": case, "outcome": run.outcome, "frames": len(run.frames)})
+    if n == 0:
+        raise E.HarnessError("no feasible path")
+
+
 def run_c09(case, eng, res):
+    if case.get("op") == "control_breeze_device":
+        return run_c09_breeze(case, eng, res)
     op = case["op"]
     l0, l1 = case["l0"], case["l1"]
     l0 = tuple(l0) if isinstance(l0, list) else l0
@@ -259,13 +291,17 @@ def main_c09(tier):
     for op in BASE_OPS:
         for l0 in lens0 + [("tail", 12)]:
             cases.append({"op": op, "l0": l0, "l1": ("tail", 0)})
+    for g in ([1, 1, 1, 1, 1], [0, 0, 0, 0, 1], [1, 0, 0, 0, 0], [0, 0, 0, 0, 0], [0, 1, 0, 1, 0]):
+        for sep in (False, True):
+            for upd in (False, True):
+                cases.append({"op": "control_breeze_device", "given": g, "separated": sep, "update": upd})
     results = H.run_cases("harness.replies", "run_c09", cases, timeout_ms=120000 if tier == "quick" else 600000)
     nw = H.validate_call_witnesses(results, cmp=_cmp_c09)
     H.finish("C09", tier, "model_checking", results, t0,
              rule="one symbolic run per (operation, login-reply shape, second-reply shape): replies of a concrete length have every byte "
                   "free; the 'tail' shape is n free bytes plus a tail of symbolic length (all longer replies, empty included when n = 0)",
              bounds={"reply lengths": "0..101 concretely (quick: %d of them) and every length up to 1024 via the symbolic tail" % len(lens1),
-                     "operations": STATE_OPS + BASE_OPS, "outside": "control_breeze_device faults are covered under C16"},
+                     "operations": STATE_OPS + BASE_OPS + ["control_breeze_device (empty login reply; later faults under C16)"]},
              assumptions=["exception classes raised by the stubs equal CPython's (validated by running the real code on one model per path)"],
              technique="SHADOW symbolic execution of the real Python source + z3 QF_BV",
              witness_checked=nw, exhaustive_splits=(tier == "thorough"),
